@@ -54,6 +54,7 @@ type Env struct {
 	recDefs   map[string]*recDef
 	cur       *Frame
 	quantDepth int
+	ghostAsserts int
 	modelTerms []string // terms to evaluate on sat (entry-state description)
 	modelNames []string
 	usedContracts map[string]bool
@@ -141,7 +142,7 @@ func (e *Env) sortOfTerm(t string) string {
 		return ""
 	}
 	switch a[0] {
-	case "+", "-", "*", "div", "mod", "tdiv", "tmod":
+	case "+", "-", "*", "div", "mod", "tdiv", "tmod", "ix":
 		return sInt
 	case "select":
 		s := e.sortOfTerm(a[1])
@@ -805,6 +806,7 @@ type sessSnap struct {
 	declared, asserted  map[string]bool
 	iteNames            map[string]string
 	recDefs             map[string]*recDef
+	ghostAsserts int
 }
 
 func (e *Env) snapshot() *sessSnap {
@@ -832,10 +834,11 @@ func (e *Env) snapshot() *sessSnap {
 		c.heapSort = hs
 		rds[k] = &c
 	}
-	return &sessSnap{log: e.sess.log.String(), declared: cp(e.declared), asserted: cp(e.asserted), iteNames: in, recDefs: rds}
+	return &sessSnap{log: e.sess.log.String(), declared: cp(e.declared), asserted: cp(e.asserted), iteNames: in, recDefs: rds, ghostAsserts: e.ghostAsserts}
 }
 
 func (e *Env) rollback(s *sessSnap) {
+	e.ghostAsserts = s.ghostAsserts
 	e.sess.log.Reset()
 	e.sess.log.WriteString(s.log)
 	e.declared, e.asserted, e.iteNames = s.declared, s.asserted, s.iteNames
